@@ -20,7 +20,7 @@ def _false(env):
     return env.not_(env.true())
 
 
-def h_split(env, n=3, spelling="num", particles=1, on_axis=False):
+def h_split(env, n=3, spelling="num", particles=1, on_axis=False, index="default"):
     cm = env.module("cryomotl")
     p = particle(env, "p", lo=-500, hi=500)
     for c in ("shift_x", "shift_y", "shift_z"):
@@ -31,6 +31,10 @@ def h_split(env, n=3, spelling="num", particles=1, on_axis=False):
         rows.append({"x": 10.0, "y": -20.0, "z": 30.5, "shift_x": 0.25, "shift_y": 0.0, "shift_z": -0.75, "phi": 90.0, "theta": 90.0, "psi": 0.0,
                      "tomo_id": 1.0, "subtomo_id": 2.0, "score": 0.5, "class": 1.0, "object_id": 1.0})
     m = mk_motl(env, cm, rows)
+    if index == "dup":
+        m.df.index = [0] * len(rows)              # two lists put together with pd.concat and no reset_index: repeated row labels
+    elif index == "gaps":
+        m.df.index = [7, 3][: len(rows)]
     if on_axis:
         s = [0.0, 0.0, env.real("s2", -50, 50)]
     else:
@@ -80,6 +84,8 @@ def jobs(tier, seed):
         sp = ["num", "C", "c"][n % 3]
         j.append(("h_split", {"n": n, "spelling": sp}))
     j += [("h_split", {"n": 4, "spelling": "C", "particles": 2}), ("h_split", {"n": 2, "spelling": "c", "particles": 2}),
+          ("h_split", {"n": 2, "spelling": "C", "particles": 2, "index": "dup"}), ("h_split", {"n": 4, "spelling": "num", "particles": 2, "index": "dup"}),
+          ("h_split", {"n": 3, "spelling": "c", "particles": 2, "index": "gaps"}), ("h_split", {"n": 1, "spelling": "C", "particles": 2}),
           ("h_split", {"n": 3, "spelling": "num", "on_axis": True}), ("h_split", {"n": 12, "spelling": "C"}), ("h_split", {"n": 10, "spelling": "c"})]
     if tier == "thorough":
         j += [("h_split", {"n": n, "spelling": "C", "particles": 2}) for n in (3, 6, 7)]
